@@ -32,11 +32,11 @@ PROFILE = {"weights": {"timeout": 6, "zero": 2, "wait": 2, "succeed": 2, "fail":
 
 
 def plan(tier):
-    return {"shards": 4, "timeout": 300} if tier == "quick" else {"shards": 16, "timeout": 1500}
+    return {"shards": 4, "timeout": 300} if tier == "quick" else {"shards": 16, "timeout": 3400}
 
 
 def ncases(tier):
-    return 8000 if tier == "quick" else 25000
+    return 8000 if tier == "quick" else 80000
 
 
 def pick_stops(rng, times, t0):
